@@ -118,6 +118,14 @@ def run(ctx):
         ctx.obligation("corr_grammar_state_space_and_retained_paths_%d_items" % len(gitems), not bad)
         if bad:
             ctx.broken[-1]["detail"] = {"failing": len(bad), "first": gdesc[bad[0]]}
+    # canary: a retained path presented along the REVERSED order (incompatible as soon as the tree has a parent and a child) is rejected
+    cand = [(it, d) for it, d in zip(gitems, gdesc) if d["what"] == "retained path" and any(node[1] for node in d["start"][0])]
+    if cand:
+        it, d = cand[0]
+        fwd = "[" + "; ".join(str(x) for x in d["order"]) + "]%nat"
+        bwd = "[" + "; ".join(str(x) for x in reversed(d["order"])) + "]%nat"
+        okc, badc, _ = coq.coq_eval_bool_cases(ctx, "gram_canary", "From PV Require Import Model.GrammarCases Proofs.GrammarPG.\nOpen Scope nat_scope.", [it.replace(fwd, bwd, 1)], shard=1, workers=1)
+        ctx.obligation("corr_grammar_canary_reversed_order_rejected", fwd in it and okc and badc == [0])
     ctx.assumptions += [
         "the enumerating generator visits every outcome of each numpy call with numpy's probability",
         "float round-off of the exact matrices is below 1e-12 on the small-rational inputs used (observed 1e-16)",
